@@ -60,12 +60,26 @@ func (s *Slashing) refusalClassS(a *an.Atom, sub Subst, kind string) string {
 		if !d.Strict && a.Op == "<" && reqIs(a.LV, d.ReqField) && stateIs(a.RV, d.StateFld) {
 			return d.Name + " below the recorded one"
 		}
+		// the same in the signed domain: int64(t) <= T, int64(s) < S. The "none" marker -1 is below every request value that
+		// passed the bound, so this form needs no [recorded value >= 0] beside it.
+		if x, ok := convOfS(a.LV, sub, types.Int64); ok && reqIs(x, d.ReqField) {
+			if k, ff := s.stateField(sub.Res(a.RV)); k == kind && ff == d.StateFld {
+				if d.Strict && a.Op == "<=" {
+					return d.Name + " not above the recorded one" + signedMark
+				}
+				if !d.Strict && a.Op == "<" {
+					return d.Name + " below the recorded one" + signedMark
+				}
+			}
+		}
 	}
 	if kind == "att" && a.Op == "<=" && reqIs(a.LV, "Target.Epoch") && reqIs(a.RV, "Source.Epoch") {
 		return "target not above source"
 	}
 	return ""
 }
+
+const signedMark = " (compared as signed values)"
 
 // RefusalReasons: C09.O1 and O2.
 func (c *Ctx) RefusalReasons(prop string) {
@@ -134,7 +148,7 @@ func (c *Ctx) RefusalReasons(prop string) {
 				for _, d := range s.dims(e.kind) {
 					d := d
 					ok, wit := c.InterCut(F, o.Site, isRoot, func(a *an.Atom, sub Subst) bool {
-						if cls := s.refusalClassS(a, sub, e.kind); cls != "" && !(strings.Contains(cls, "recorded") && strings.HasPrefix(cls, d.Name+" ")) {
+						if cls := s.refusalClassS(a, sub, e.kind); cls != "" && (!(strings.Contains(cls, "recorded") && strings.HasPrefix(cls, d.Name+" ")) || strings.HasSuffix(cls, signedMark)) {
 							return true
 						}
 						return s.nonNegAtomS(a, sub, e.kind, d.StateFld)
